@@ -63,6 +63,7 @@ def build_registry(mods):
     reg.models[common.sum_prefix] = _models.q_sum_prefix
     reg.models[common.count_prefix] = _models.q_count_prefix
     reg.models[common.nat_of_str] = _models.q_nat_of_str
+    reg.models[common.keys_subset] = _models.q_keys_subset
     reg.models[common.items_of] = _models.m_items_of
     reg.link()
     # loop specs keyed by (file, ast-qualname, ordinal)
